@@ -493,6 +493,17 @@ struct Cfg {
     field: &'static str,
     maxlen: usize,
     two_adicity: u32,
+    /// size of the largest evaluation domain of the field: 2^TWO_ADICITY, times q^k when a small subgroup is declared
+    /// (GeneralEvaluationDomain then falls back to a mixed-radix domain), capped at 2^60
+    max_domain: u128,
+}
+
+fn max_domain<F: FftField>() -> u128 {
+    let two = 1u128 << F::TWO_ADICITY.min(60);
+    match (F::SMALL_SUBGROUP_BASE, F::SMALL_SUBGROUP_BASE_ADICITY, F::LARGE_SUBGROUP_ROOT_OF_UNITY) {
+        (Some(q), Some(k), Some(_)) => two.saturating_mul((q as u128).saturating_pow(k)).min(1u128 << 60),
+        _ => two,
+    }
 }
 
 /// dense ∘ dense: + - neg *F += -= +=(f,·)
@@ -519,6 +530,7 @@ fn dense_linear<F: PrimeField>(cfg: &Cfg, t: &mut Tape<'_>, o: &mut Obs) -> R {
     chk_dense("dd.sub", &no_panic("dd.sub", || &a - &b)?, &dif, &pts)?;
     chk_dense("dd.sub.owned", &no_panic("dd.sub.owned", || a.clone() - b.clone())?, &dif, &[])?;
     chk_dense("dd.sub.ref_owned", &no_panic("dd.sub.ref_owned", || &a - b.clone())?, &dif, &[])?;
+    chk_dense("dd.sub.owned_ref", &no_panic("dd.sub.owned_ref", || a.clone() - &b)?, &dif, &[])?;
     chk_dense("d.neg", &no_panic("d.neg", || -a.clone())?, &m_neg(&am), &pts)?;
     chk_dense("d.scale", &no_panic("d.scale", || &a * f)?, &m_scale(&am, f), &pts)?;
     chk_dense("d.scale.owned", &no_panic("d.scale.owned", || b.clone() * f)?, &m_scale(&bm, f), &[])?;
@@ -685,12 +697,14 @@ fn mul_rel<F: PrimeField>(cfg: &Cfg, t: &mut Tape<'_>, o: &mut Obs) -> R {
     chk_sparse("sparse_mul", &no_panic("sparse_mul", || sa.mul(&sb))?, &prod, &pts)?;
     // FFT multiplication needs a domain of size >= deg a + deg b + 1 (documented: panics when the field is not smooth enough)
     let need = if both { am.len() + bm.len() - 1 } else { 0 };
-    let fits = (need as u128) <= (1u128 << cfg.two_adicity.min(60));
+    let fits = (need as u128) <= cfg.max_domain;
     o.class_if(both && fits, "fft multiplication");
+    o.class_if(both && fits && (need as u128) > (1u128 << cfg.two_adicity.min(60)), "fft multiplication over a mixed-radix domain");
     if fits {
         chk_dense("fft_mul", &no_panic("fft_mul", || &a * &b)?, &prod, &pts)?;
         chk_dense("fft_mul.owned", &no_panic("fft_mul.owned", || a.clone() * b.clone())?, &prod, &[])?;
         chk_dense("fft_mul.owned_ref", &no_panic("fft_mul.owned_ref", || a.clone() * &b)?, &prod, &[])?;
+        chk_dense("fft_mul.ref_owned", &no_panic("fft_mul.ref_owned", || &a * b.clone())?, &prod, &[])?;
     }
     Ok(())
 }
@@ -753,6 +767,8 @@ fn div_rel<F: PrimeField>(cfg: &Cfg, t: &mut Tape<'_>, o: &mut Obs) -> R {
     o.evals(10);
     chk_dense("div", &no_panic("div", || &a / &b)?, &q, &pts)?;
     chk_dense("div.owned", &no_panic("div.owned", || a.clone() / b.clone())?, &q, &[])?;
+    chk_dense("div.owned_ref", &no_panic("div.owned_ref", || a.clone() / &b)?, &q, &[])?;
+    chk_dense("div.ref_owned", &no_panic("div.ref_owned", || &a / b.clone())?, &q, &[])?;
     let da = DenseOrSparsePolynomial::from(&a);
     let db = DenseOrSparsePolynomial::from(&b);
     let xa = DenseOrSparsePolynomial::from(&sa);
@@ -1035,7 +1051,7 @@ fn eval_domain_rel<F: PrimeField, D: Dom<F>>(cfg: &Cfg, maxsize: usize, t: &mut 
 // ---------------------------------------------------------------------------------------------------------
 
 fn field_rels<F: PrimeField>(out: &mut Vec<Rel>, name: &'static str, tier: Tier, maxlen: usize, tape: usize) {
-    let cfg = std::sync::Arc::new(Cfg { field: name, maxlen, two_adicity: F::TWO_ADICITY });
+    let cfg = std::sync::Arc::new(Cfg { field: name, maxlen, two_adicity: F::TWO_ADICITY, max_domain: max_domain::<F>() });
     let q = |n: u32| tier.pick(n, n * 20);
     macro_rules! rel {
         ($rname:expr, $cases:expr, $f:ident) => {{
@@ -1052,13 +1068,16 @@ fn field_rels<F: PrimeField>(out: &mut Vec<Rel>, name: &'static str, tier: Tier,
 }
 
 fn domain_rels<F: PrimeField, D: Dom<F>>(out: &mut Vec<Rel>, name: &'static str, tier: Tier, maxlen: usize, maxsize: usize, tape: usize) {
-    let cfg = std::sync::Arc::new(Cfg { field: name, maxlen, two_adicity: F::TWO_ADICITY });
+    let cfg = std::sync::Arc::new(Cfg { field: name, maxlen, two_adicity: F::TWO_ADICITY, max_domain: max_domain::<F>() });
     let q = |n: u32| tier.pick(n, n * 20);
     let c = cfg.clone();
     out.push(Rel::new(format!("vanishing/{}.{}", name, D::NAME), q(2000), tape, move |t, o| vanishing_rel::<F, D>(&c, maxsize, t, o)).shrink_iters(1500));
     let c = cfg.clone();
     out.push(Rel::new(format!("eval-domain/{}.{}", name, D::NAME), q(1500), tape, move |t, o| eval_domain_rel::<F, D>(&c, maxsize, t, o)).shrink_iters(1500));
 }
+
+mod big;
+mod highdeg;
 
 fn relations(tier: Tier) -> Vec<Rel> {
     use ark_test_curves::bls12_381::Fr;
@@ -1079,18 +1098,37 @@ fn relations(tier: Tier) -> Vec<Rel> {
     // a toy mixed-radix field (p = 1657, 2^3 * 3^2): sizes 1..72
     domain_rels::<X3_2, MixedRadixEvaluationDomain<X3_2>>(&mut out, "X3_2", tier, maxlen, 72, tape);
     domain_rels::<X3_2, GeneralEvaluationDomain<X3_2>>(&mut out, "X3_2", tier, maxlen, 72, tape);
+    // FFT multiplication where GeneralEvaluationDomain has to fall back to a mixed-radix domain: p = 1657 has 2-adicity 3,
+    // products with 9..=72 coefficients are transformed over domains of size 9, 12, 18, 24, 36, 72
+    {
+        let cfg = std::sync::Arc::new(Cfg { field: "X3_2", maxlen: 38, two_adicity: X3_2::TWO_ADICITY, max_domain: max_domain::<X3_2>() });
+        out.push(Rel::new("mul/X3_2", tier.pick(1500, 30000), tape, move |t, o| mul_rel::<X3_2>(&cfg, t, o)).shrink_iters(1500));
+    }
+    // sparse polynomials of very high degree (vanishing polynomials of large domains, x^(2^k) +- ...): the dense model
+    // cannot represent them; oracle = BTreeMap<degree, coefficient> and sum c * x^d with Field::pow
+    out.push(Rel::new("sparse.highdeg/bls12_381.Fr", tier.pick(1500, 30000), tape, move |t, o| highdeg::highdeg_rel::<Fr>("bls12_381.Fr", t, o)).shrink_iters(1500));
+    // large operands (big.rs)
+    {
+        use vh_core::zoo::Gold;
+        let (mf, mg) = (tier.pick(1usize << 14, 1 << 16), tier.pick(1usize << 15, 1 << 17));
+        out.push(Rel::new("big/bls12_381.Fr", tier.pick(8, 240), 160, move |t, o| big::big_rel::<Fr>("bls12_381.Fr", mf, t, o)).shrink_iters(60));
+        out.push(Rel::new("big/Gold", tier.pick(14, 400), 160, move |t, o| big::big_rel::<Gold>("Gold", mg, t, o)).shrink_iters(60));
+    }
+    out.push(Rel::new("sparse.highdeg/T97", tier.pick(1500, 30000), tape, move |t, o| highdeg::highdeg_rel::<T97>("T97", t, o)).shrink_iters(1500));
     out
 }
 
 fn main() {
     vh_core::engine::main(PropSpec {
         id: "C08",
-        rule: "Operands are canonical coefficient vectors (the model) over BLS12-381 Fr and over F_97 (frequent cancellations), 0..=70 coefficients (thorough 600): zero, constants, short, any length; coefficients uniform / edge values with many zeros / very sparse / {0,±1,2}; pairs are independent or correlated (b = -a + low-degree noise, b = a + noise, equal degree with opposite or equal leading coefficient, b = -a/f + noise for the scaled add, b = a, one side zero); sparse operands are built through SparsePolynomial::from_coefficients_vec/slice from distinct degrees with non-zero coefficients in ascending, descending or shuffled order, independent of the dense operand or sharing/negating its leading term, equal to ±a, of higher or lower degree; divisors are non-zero (a = b*q + r constructed, constants, x^n - c, equal degree, few terms); domains are radix-2/general/mixed subgroups and cosets (offset 1, GENERATOR, tape, subgroup element) of size <= 32 (72 on the toy mixed field) with operand lengths < n, = n, n+1, <= 2n, = 2n, > 2n, k*n. Every result is compared coefficient by coefficient with the schoolbook model's canonical vector (so a non-canonical result fails), degree()/is_zero()/evaluate at {0, 1, -1, two tape points} are checked on it, division results also through a = q*b + r and deg r < deg b. Non-trivial: both operands non-zero and (equal degrees or a leading-term cancellation) for the linear relations; both non-zero and not both constant (mul); dividend non-zero of degree >= deg divisor (div); operand non-zero with at least n coefficients (vanishing); both non-zero and longer than the domain or of equal length (eval-domain); at least two coefficients (conv). distinct = distinct decoded choice sequences.",
+        rule: "Operands are canonical coefficient vectors (the model) over BLS12-381 Fr and over F_97 (frequent cancellations), 0..=70 coefficients (thorough 600): zero, constants, short, any length; coefficients uniform / edge values with many zeros / very sparse / {0,±1,2}; pairs are independent or correlated (b = -a + low-degree noise, b = a + noise, equal degree with opposite or equal leading coefficient, b = -a/f + noise for the scaled add, b = a, one side zero); sparse operands are built through SparsePolynomial::from_coefficients_vec/slice from distinct degrees with non-zero coefficients in ascending, descending or shuffled order, independent of the dense operand or sharing/negating its leading term, equal to ±a, of higher or lower degree; divisors are non-zero (a = b*q + r constructed, constants, x^n - c, equal degree, few terms); domains are radix-2/general/mixed subgroups and cosets (offset 1, GENERATOR, tape, subgroup element) of size <= 32 (72 on the toy mixed field) with operand lengths < n, = n, n+1, <= 2n, = 2n, > 2n, k*n. Every result is compared coefficient by coefficient with the schoolbook model's canonical vector (so a non-canonical result fails), degree()/is_zero()/evaluate at {0, 1, -1, two tape points} are checked on it, division results also through a = q*b + r and deg r < deg b. Non-trivial: both operands non-zero and (equal degrees or a leading-term cancellation) for the linear relations; both non-zero and not both constant (mul); dividend non-zero of degree >= deg divisor (div); operand non-zero with at least n coefficients (vanishing); both non-zero and longer than the domain or of equal length (eval-domain); at least two coefficients (conv). Added: every owned/borrowed spelling of dense + - * / (owned-owned, owned-ref, ref-owned, ref-ref); FFT multiplication over the toy field F_1657 (two-adicity 3, small subgroup 3^2), where products with 9..72 coefficients are transformed over mixed-radix domains (relation mul/X3_2, operands up to 38 coefficients; products that fit no domain are not multiplied by FFT); sparse polynomials of very high degree (relation sparse.highdeg: 0..7 terms at degrees in 0..200, around 2^a +- 1 for a <= 61, uniform below 2^61; pairs sharing degrees with equal / opposite / fresh coefficients, b = +-a, b = -a/f) through constructors, degree, is_zero, evaluate, + += -= +=(f,.) neg *F, SparsePolynomial::mul, evaluate_over_domain(_by_ref) on cosets of size <= 16, against a BTreeMap<degree, coefficient> model and sum c*x^d with Field::pow; non-trivial there: >= 2 terms and degree >= 2^16. Large operands (relation big: up to 2^14 coefficients over BLS12-381 Fr, 2^15 over Goldilocks; thorough 2^16 / 2^17; lengths 2^k, 2^k +- 1, uniform; second operand independent, -a + noise, equal degree with opposite leading coefficient, short, medium, zero): linear operators, dense with few-term sparse, conversions and evaluate compared exactly with the model; products and quotients exactly when la*lb <= 2^20, otherwise through a(x)b(x) = p(x) and q(x)b(x) + r(x) = a(x) at five points plus degree and canonical-form conditions; mul_by_vanishing_poly exactly, divide_by_vanishing_poly through q*Z + r = a with the length conditions, evaluate_over_domain at 8 elements of a coset of size <= 2^13, interpolate = the remainder. distinct = distinct decoded choice sequences.",
         assumptions: &[
             "prime-field arithmetic is correct (C01); domain construction and fft/ifft are C07's subject (used here only through evaluate_over_domain/interpolate/FFT multiplication, whose results are compared with the model)",
             "sparse inputs: distinct degrees, non-zero coefficients, any order (the only input shape the constructor documents); dense inputs go through from_coefficients_vec/slice (which strips trailing zeros)",
-            "division by the zero polynomial panics by documentation and is not generated; FFT multiplication is only requested when deg a + deg b + 1 <= 2^TWO_ADICITY (documented panic otherwise); Evaluations division only with non-zero divisor evaluations",
+            "division by the zero polynomial panics by documentation and is not generated; FFT multiplication is only requested when a domain of size >= deg a + deg b + 1 exists, i.e. up to 2^TWO_ADICITY, times q^k for a field with a declared small subgroup (documented panic otherwise); Evaluations division only with non-zero divisor evaluations",
             "coefficients beyond the first three and the leading one are expanded from one tape word by a fixed mixing function (pure function of the tape)",
+            "for large operands whose schoolbook product is not affordable a wrong product/quotient of the right degree passes the five-point identity with probability <= 5*deg/|F| (|F| >= 2^64)",
+            "high-degree sparse operands stay below degree 2^61 so that the degrees of a product do not overflow usize (an overflow there is outside any documented domain)",
         ],
         relations,
     })
